@@ -148,8 +148,13 @@ impl<'a> PrettyPrinter<'a> {
                     !matches!(child.kind(), SyntaxKind::RightParen | SyntaxKind::Space)
                 })
                 .unwrap_or(children.len().saturating_sub(1));
-            children.get(i..=j).unwrap_or_default().iter()
+            children.get(i..=j).unwrap_or_default()
         };
+        // A trailing line comment must not swallow the closing parenthesis.
+        let ends_with_line_comment = children
+            .last()
+            .is_some_and(|child| child.kind() == SyntaxKind::LineComment);
+        let children = children.iter();
 
         let mut peek_hashed_arg = false;
         let inner = self.convert_flow_like_iter(ctx, children, |ctx, child| {
@@ -182,10 +187,14 @@ impl<'a> PrettyPrinter<'a> {
             }
         });
         if self.attr_store.is_multiline(args.to_untyped()) {
-            ((self.arena.line_() + inner).nest(self.config.tab_spaces as isize)
-                + self.arena.line_())
-            .group()
-            .parens()
+            let close = if ends_with_line_comment {
+                self.arena.hardline()
+            } else {
+                self.arena.line_()
+            };
+            ((self.arena.line_() + inner).nest(self.config.tab_spaces as isize) + close)
+                .group()
+                .parens()
         } else {
             inner.parens()
         }
